@@ -12,7 +12,11 @@
 //   pool   acquire / fill with markers / release / re-acquire histories, sequential and from 8
 //          goroutines: no marker survives; the pack equals the Clear() or the constructor constants
 //          of the model.
-//   mask   connection strings from the key=value grammar (and near-misses): after Process() of an
+//   pool2  two-use histories acquire → fill/decode → Process() → release → re-acquire → fill/decode →
+//          Process(): every field (exported or not, through pointers, by reflection) of the pack equals
+//          that of a pack which only had the second use.
+//   mask   connection strings from the key=value grammar (1 … 200 tokens, password first / middle / last /
+//          at positions 19, 20, 21, repeated, very long values) (and near-misses): after Process() of an
 //          SQL / SQL-param / DBC pack of the Go and PHP families no password token keeps its value;
 //          Dbc vs driver on ASCII strings.
 //   num    ParseStringZeroToEmpty / ParseInt32 / ParseInt64 / Truncate vs the digit-function model.
@@ -974,6 +978,10 @@ func poolHistory(pt *ptype, consts poolConsts, r *vh.Rng, rounds int, who string
 			vh.Guard(func() { udp.ToBytesPack(p) })
 			hist = append(hist, "write")
 		}
+		if r.Chance(30) {
+			vh.Guard(func() { p.Process() })
+			hist = append(hist, "process")
+		}
 		vh.Guard(func() { udp.ClosePack(p) })
 		hist = append(hist, "release")
 		if len(hist) > 40 {
@@ -1026,6 +1034,196 @@ func stagePool() {
 	wg.Wait()
 }
 
+// ---------------------------------------------------------------- stage pool2: two uses of one pooled pack
+
+var useTexts = []string{"1", "0", "true", "123", "-7", "2147483647", "99999999999", "abc", "/a/b?x=1", "host:8080", "http://h/p"}
+var useVers = []int32{10101, 10102, 10105, 10107, 10108, 10110, 20101, 20102, 20104, 30101, 30102, 30103, 40001, 50001, 50100, 50101, 7}
+
+// genUseRec: a record for one use of a pack that goes through Process(): optional inputs are often
+// empty, often numeric text (so that the derived fields of Process() are set in one use and not in the other)
+func genUseRec(r *vh.Rng, pt *ptype) map[string]string {
+	rec := genRec(r, pt)
+	for _, f := range fieldsOf(pt.mk()) {
+		if f.typ.Kind() != reflect.String {
+			continue
+		}
+		if _, ok := rec[f.name]; !ok {
+			continue
+		}
+		switch {
+		case r.Chance(35):
+			rec[f.name] = "s-"
+		case r.Chance(40):
+			rec[f.name] = "s" + vh.Hex([]byte(r.PickStr(useTexts)))
+		case r.Chance(50):
+			rec[f.name] = "s" + vh.Hex(genText(r, r.Intn(12)))
+		}
+	}
+	set := func(n, v string) { rec[n] = "s" + vh.Hex([]byte(v)) }
+	switch pt.name {
+	case "UdpActiveStackPack":
+		if r.Chance(85) { // three ", " separated parts, each possibly empty / not a number
+			part := func() string { return r.PickStr([]string{"", "12", "-5", "abc", "99999999999", "stack7"}) }
+			set("Data", part()+", "+part()+", "+part())
+		}
+	case "UdpDBConPoolPack":
+		if r.Chance(70) {
+			w := func() string { return r.PickStr([]string{"", "7", "900", "jdbc:u", "x"}) }
+			set("Data", w()+"|"+w()+"|"+w()+"|"+w()+r.PickStr([]string{"", ",bad|x", ",1|u|2|3"}))
+		} else if r.Chance(50) {
+			set("Data", "nothing")
+		}
+	case "UdpConfigPack":
+		if r.Chance(70) {
+			set("Data", fmt.Sprintf("k%d=%s\n%s=%d\nnoeq", r.Intn(5), r.PickStr([]string{"", "v", "9"}), r.PickStr([]string{"", "q"}), r.Intn(99)))
+		}
+	case "UdpActiveStatsPack":
+		if r.Chance(40) {
+			rec["ActiveStats"] = "l" + vh.List([]string{"1", "2", "3"}[:r.Intn(4)])
+		}
+	case "UdpTxSqlPack", "UdpTxSqlParamPack", "UdpTxDbcPack":
+		if r.Chance(50) {
+			set("Dbc", "user=u password=PWpool host=h")
+		}
+	}
+	return rec
+}
+
+type use struct {
+	ver  int32
+	rec  map[string]string
+	fill bool // true: assign the fields directly; false: decode the bytes a writer produced for rec
+}
+
+// applyUse performs one use on p: fill or decode, then Process()
+func applyUse(pt *ptype, p udp.UdpPack, u use) vh.Outcome {
+	return vh.Guard(func() {
+		if u.fill {
+			applyRec(p, u.rec)
+		} else {
+			b, o := goWrite(pt, u.ver, u.rec)
+			if !o.OK() {
+				panic("write: " + o.Panic)
+			}
+			if pt.name == "UdpRelayPack" {
+				setCanon(p, fieldByName(p, "Len"), "i"+strconv.Itoa(len(b)))
+			}
+			p.Read(gio.NewDataInputX(b))
+		}
+		p.Process()
+	})
+}
+
+var pool2Ignore = map[string]bool{"ParamPack.Time": true, "ParamPack.AbstractPack.Time": true} // UdpTxParamPack.Process reads the clock
+
+type fieldDiff struct{ path, got, want string }
+
+func diffsOf(q, ref udp.UdpPack) []fieldDiff {
+	var out []fieldDiff
+	for _, path := range packDiff(q, ref, pool2Ignore) {
+		out = append(out, fieldDiff{path, showField(q, path), showField(ref, path)})
+	}
+	return out
+}
+
+// twoUse runs acquire → use 1 → Process → release → re-acquire → use 2 → Process and compares every
+// field of the re-acquired pack — right after the re-acquisition and again after the second use —
+// with a pack that never had the first use (constructor + Clear(), or constructor alone when the pool
+// made a new object).  Returns the differing fields (nil = fine), whether the pool handed the same
+// object back, and whether the history ran to the end.
+func twoUse(pt *ptype, u1, u2 use) (bad []fieldDiff, reused bool, ran bool) {
+	var p, q udp.UdpPack
+	if o := vh.Guard(func() { p = udp.CreatePack(pt.code, u1.ver) }); !o.OK() || p == nil || reflect.ValueOf(p).IsNil() {
+		return nil, false, false
+	}
+	applyUse(pt, p, u1) // a panicking Process() (ill-formed Data) still leaves a used pack to release
+	addr := reflect.ValueOf(p).Pointer()
+	vh.Guard(func() { udp.ClosePack(p) })
+	p = nil
+	if o := vh.Guard(func() { q = udp.CreatePack(pt.code, u2.ver) }); !o.OK() || q == nil {
+		return nil, false, false
+	}
+	reused = reflect.ValueOf(q).Pointer() == addr
+	defer func() { vh.Guard(func() { udp.ClosePack(q) }) }()
+	refNew := pt.mk() // straight from the constructor
+	refNew.SetVersion(u2.ver)
+	refClr := pt.mk() // constructor, then Clear(): what a pooled pack must be equivalent to
+	refClr.Clear()
+	refClr.SetVersion(u2.ver)
+	pick := func() []fieldDiff {
+		dClr := diffsOf(q, refClr)
+		if len(dClr) == 0 {
+			return nil
+		}
+		dNew := diffsOf(q, refNew)
+		if len(dNew) == 0 && !reused {
+			return nil
+		}
+		if reused || len(dClr) <= len(dNew) {
+			return dClr
+		}
+		return dNew
+	}
+	if d := pick(); len(d) > 0 { // before the second use
+		return d, reused, true
+	}
+	if o := applyUse(pt, q, u2); !o.OK() {
+		return nil, reused, false
+	}
+	if !applyUse(pt, refNew, u2).OK() || !applyUse(pt, refClr, u2).OK() {
+		return nil, reused, false
+	}
+	return pick(), reused, true
+}
+
+func useReplay(u use, pt *ptype) map[string]interface{} {
+	return map[string]interface{}{"ver": u.ver, "fill": u.fill, "rec": recString(pt, u.rec)}
+}
+
+func reportTwoUse(pt *ptype, u1, u2 use, bad []fieldDiff, reused bool) {
+	for _, d := range bad {
+		top := d.path
+		if i := strings.Index(d.path, "."); i > 0 && !strings.HasPrefix(d.path, "AbstractPack.") {
+			top = d.path[:i]
+		}
+		rep.Fail("property", pt.name+":"+top+":residue",
+			fmt.Sprintf("%s used (version %d), processed, released, re-acquired (same object: %v) and used again (version %d) differs on %s from a pack that only had the second use: %s instead of %s",
+				pt.name, u1.ver, reused, u2.ver, d.path, vh.Clip(d.got, 100), vh.Clip(d.want, 100)),
+			map[string]interface{}{"stage": "pool2", "type": pt.name, "use1": useReplay(u1, pt), "use2": useReplay(u2, pt)})
+	}
+}
+
+func stagePool2() {
+	per := 80
+	if env.Thorough {
+		per = 1500
+	}
+	for i := range ptypes {
+		pt := &ptypes[i]
+		r := rng.Fork()
+		for n := 0; n < per; n++ {
+			u1 := use{ver: useVers[r.Intn(len(useVers))], rec: genUseRec(r, pt), fill: r.Chance(40)}
+			u2 := use{ver: useVers[r.Intn(len(useVers))], rec: genUseRec(r, pt), fill: r.Chance(40)}
+			if r.Chance(50) {
+				u2.ver = u1.ver
+			}
+			bad, reused, ran := twoUse(pt, u1, u2)
+			rep.Case(fmt.Sprintf("pool2 %s %d %v %s | %d %v %s", pt.name, u1.ver, u1.fill, recString(pt, u1.rec), u2.ver, u2.fill, recString(pt, u2.rec)), ran)
+			switch {
+			case !ran:
+				rep.Count("pool2.skipped(process panics or no pack)")
+			case reused:
+				rep.Count("pool2.same_object_back")
+			default:
+				rep.Count("pool2.other_object")
+			}
+			if len(bad) > 0 {
+				reportTwoUse(pt, u1, u2, bad, reused)
+			}
+		}
+	}
+}
+
 // ---------------------------------------------------------------- stage mask
 
 var plainKeys = []string{"user", "password", "host", "port", "dbname", "sslmode", "Password", "PASSWORD", "pwd", "password2", "xpassword", "pass", "a", "k1"}
@@ -1057,36 +1255,73 @@ type connStr struct {
 
 var secretN int
 
-func genConn(r *vh.Rng) connStr {
-	ntok := r.PickInt([]int{0, 1, 1, 2, 3, 3, 4, 5, 8})
+// token counts: short strings, and counts around 20 / far beyond (a tokenizer with a cap on the
+// number of pieces — strings.SplitN — would keep the rest of the string inside the last value)
+var longCounts = []int{19, 20, 21, 22, 40, 200}
+
+// pwPositions: where the password tokens sit in a string of n tokens
+func pwPositions(r *vh.Rng, n int) map[int]bool {
+	pos := map[int]bool{}
+	if n == 0 {
+		return pos
+	}
+	cands := []int{0, n / 2, n - 1, 19, 20, 21}
+	k := 1
+	if r.Chance(30) { // repeated password keys
+		k = 2 + r.Intn(2)
+	}
+	for i := 0; i < k; i++ {
+		c := r.PickInt(cands)
+		if c >= n {
+			c = n - 1
+		}
+		pos[c] = true
+	}
+	return pos
+}
+
+func genValue(r *vh.Rng) string {
+	v := genPlain(r, 10)
+	switch {
+	case r.Chance(10):
+		v = "#"
+	case r.Chance(3): // very long value
+		n := r.PickInt([]int{300, 1000, 3000})
+		var b strings.Builder
+		for b.Len() < n {
+			b.WriteString(genPlain(r, 40))
+			b.WriteByte('x')
+		}
+		v = b.String()
+	}
+	return v
+}
+
+func buildConn(r *vh.Rng, ntok int, pw map[int]bool, sepMode int) connStr {
 	var toks []string
 	var secrets []string
-	hasPw := false
 	for i := 0; i < ntok; i++ {
 		k := r.PickStr(plainKeys)
 		if r.Chance(20) {
 			k = genPlain(r, 6)
 		}
-		if i == ntok-1 && !hasPw && r.Chance(60) {
+		v := genValue(r)
+		if pw[i] {
 			k = "password"
 		}
-		v := genPlain(r, 10)
-		if r.Chance(10) {
-			v = "#"
-		}
-		if k == "password" {
-			hasPw = true
-			if r.Chance(80) {
-				secretN++
-				v = fmt.Sprintf("PW%dx", secretN) + genPlain(r, 3)
-				secrets = append(secrets, v)
+		if k == "password" && (pw[i] || r.Chance(80)) {
+			secretN++
+			v = fmt.Sprintf("PW%dx", secretN) + genPlain(r, 3)
+			if r.Chance(5) {
+				v += genValue(r)
 			}
+			secrets = append(secrets, v)
 		}
 		toks = append(toks, k+"="+v)
 	}
 	shape := "uniform-space"
 	sepOf := func(i int) string { return " " }
-	switch r.Intn(3) {
+	switch sepMode {
 	case 1:
 		shape = "uniform-semicolon"
 		sepOf = func(i int) string { return ";" }
@@ -1102,9 +1337,50 @@ func genConn(r *vh.Rng) connStr {
 		b.WriteString(t)
 	}
 	cs := connStr{b.String(), true, secrets, shape}
+	switch {
+	case ntok >= 40:
+		cs.shape += "+tokens>=40"
+	case ntok >= 19:
+		cs.shape += "+tokens19-22"
+	}
 	if !asciiOnly([]byte(cs.s)) {
 		cs.shape += "+non-ascii"
 	}
+	return cs
+}
+
+// systematic long strings: every count × separator mode × password position
+func fixedLongConns(r *vh.Rng) []connStr {
+	var out []connStr
+	for _, n := range []int{1, 2, 3, 19, 20, 21, 22, 40, 200} {
+		for sep := 0; sep < 3; sep++ {
+			for _, p := range []int{0, n / 2, n - 1, 19, 20, 21} {
+				if p >= n {
+					continue
+				}
+				out = append(out, buildConn(r, n, map[int]bool{p: true}, sep))
+			}
+			if n >= 3 {
+				out = append(out, buildConn(r, n, map[int]bool{0: true, n / 2: true, n - 1: true}, sep))
+			}
+		}
+	}
+	return out
+}
+
+func genConn(r *vh.Rng) connStr {
+	ntok := r.PickInt([]int{0, 1, 1, 2, 3, 3, 4, 5, 8})
+	if r.Chance(25) {
+		ntok = r.PickInt(longCounts)
+		if ntok == 200 && !r.Chance(30) {
+			ntok = 40
+		}
+	}
+	pw := map[int]bool{}
+	if r.Chance(70) {
+		pw = pwPositions(r, ntok)
+	}
+	cs := buildConn(r, ntok, pw, r.Intn(3))
 	if r.Chance(35) { // near-misses
 		cs.grammar = false
 		s := cs.s
@@ -1245,6 +1521,29 @@ func maskSearch(tname string, s string) bool {
 }
 
 func maskSearch1(tname string, s string) bool {
+	// long grammar strings: a defect that depends on the number of tokens (or on the length of the
+	// string) shows with the same tokens repeated
+	ntoks := len(strings.FieldsFunc(s, func(c rune) bool { return c == ' ' || c == ';' }))
+	for _, n := range []int{ntoks, ntoks + 1, 19, 20, 21, 22, 40, 200, 1000} {
+		for _, sep := range []string{" ", ";"} {
+			for _, at := range []int{n - 1, n / 2, 0} {
+				if n <= 0 || at < 0 {
+					continue
+				}
+				toks := make([]string, n)
+				for i := range toks {
+					toks[i] = fmt.Sprintf("k%d=v%d", i, i)
+				}
+				toks[at] = "password=PWsearch"
+				cs := connStr{strings.Join(toks, sep), true, []string{"PWsearch"}, "search-long"}
+				for _, ver := range []int32{50100, 10110} {
+					if _, _, bad := maskProperty(tname, ver, cs); bad {
+						return true
+					}
+				}
+			}
+		}
+	}
 	var pieces []string
 	for i := 0; i < len(s); {
 		if s[i] < 128 {
@@ -1324,6 +1623,10 @@ func stageMask() {
 		{"\u023a\u023a=1;password=secret", true, []string{"secret"}, "uniform-semicolon+non-ascii"},
 		{"\xff=1;password=secret", true, []string{"secret"}, "uniform-semicolon+non-ascii"},
 	}
+	fixed = append(fixed, fixedLongConns(rng)...)
+	if n < len(fixed)+500 {
+		n = len(fixed) + 500
+	}
 	for i := 0; i < n; i++ {
 		var cs connStr
 		if i < len(fixed) {
@@ -1332,7 +1635,11 @@ func stageMask() {
 			cs = genConn(rng)
 		}
 		t := tn[i%3]
-		for _, ver := range pickVers() {
+		vs := pickVers()
+		if i < len(fixed) {
+			vs = []int32{50100, 10110, maskVers[rng.Intn(len(maskVers))]}
+		}
+		for _, ver := range vs {
 			jobs = append(jobs, job{t, ver, cs})
 			lines = append(lines, fmt.Sprintf("D %d %s", ver, vh.Hex([]byte(cs.s))))
 		}
@@ -1515,6 +1822,28 @@ func runReplay(path string) {
 			maskOne(c["type"].(string), ver, connStr{str, g, secs, "replay"}, outs[0])
 		case "pool":
 			stagePool()
+		case "pool2":
+			pt := typeByName(c["type"].(string))
+			if pt == nil {
+				continue
+			}
+			mk := func(x interface{}) use {
+				m := x.(map[string]interface{})
+				f, _ := m["fill"].(bool)
+				return use{ver: int32(m["ver"].(float64)), fill: f, rec: fullRec(pt, parseRec(m["rec"].(string)))}
+			}
+			u1, u2 := mk(c["use1"]), mk(c["use2"])
+			for try := 0; try < 50; try++ { // until the pool hands the same object back
+				bad, reused, ran := twoUse(pt, u1, u2)
+				rep.Case(fmt.Sprintf("pool2 replay %s try %d", pt.name, try), ran)
+				if len(bad) > 0 {
+					reportTwoUse(pt, u1, u2, bad, reused)
+					break
+				}
+				if reused {
+					break
+				}
+			}
 		case "num":
 			stageNum()
 		}
@@ -1572,6 +1901,7 @@ func main() {
 	stageRT(cases)
 	stageToPack(cases)
 	stagePool()
+	stagePool2()
 	stageMask()
 	stageNum()
 	knownReplays()
